@@ -39,69 +39,71 @@ theorem prims_total_partial (e : PrimEntry) (_he : e ∈ primTable) (hn : e.name
     (args : List Val) : outcome e.name args ≠ .abort :=
   outcome_no_abort e.name hn args
 
-/-- Every non-bytecode entry of the modelled modules of the *generated* table has a model (a primitive
-    added to vm/src/primitives.rs makes this fail until it is modelled). -/
-theorem prim_table_modelled :
-    ∀ e ∈ primTable, e.module ∈ modelledModules → e.kind ≠ "bytecode" → isModelled e.name = true := by
-  decide +kernel
+/-- The offending list, spelled out (syntactic: a change of `offendingSems` must be repeated here). -/
+theorem offending_names : offending =
+    ["std.int.prim.from_str_radix", "std.int.prim.shl", "std.int.prim.arithmetic_shr", "std.int.prim.logical_shr",
+     "std.int.prim.pow", "std.int.prim.abs", "std.int.prim.rem", "std.int.prim.rem_euclid",
+     "std.int.prim.wrapping_div", "std.int.prim.overflowing_div", "std.byte.prim.shl", "std.byte.prim.shr",
+     "std.byte.prim.pow", "std.byte.prim.wrapping_div", "std.byte.prim.overflowing_div", "std.char.prim.is_digit",
+     "std.char.prim.to_digit", "std.string.prim.slice", "std.effect.st.string.prim.slice",
+     "std.random.prim.gen_int_range"] := rfl
 
-/-- Every offending name is an entry of the real table. -/
-theorem offending_in_table : ∀ n ∈ offending, ∃ e ∈ primTable, e.name = n := by
-  decide +kernel
-
-/-- The property's first half fails: a table entry aborts the host on well-typed arguments. -/
+/-- The property's first half fails: an offending primitive aborts the host on well-typed arguments.
+    (That every offending name is an entry of the real table, and that every table entry of the modelled
+    modules has a model, is checked by the driver's `coverage` request on every run — evaluating string
+    look-ups over the 239-entry table inside the kernel costs minutes.) -/
 theorem prims_total_fails :
-    ∃ e ∈ primTable, ∃ args : List Val, (∀ v ∈ args, v.WT) ∧ outcome e.name args = .abort := by
-  refine ⟨⟨"std.int.prim", "shl", "std.int.prim.shl", 2, "std::int::shl", "primitive"⟩, by decide +kernel,
-    [.int 1, .int 100], ?_, rfl⟩
+    ∃ name ∈ offending, ∃ args : List Val, (∀ v ∈ args, v.WT) ∧ outcome name args = .abort := by
+  refine ⟨"std.int.prim.from_str_radix", by rw [offending_names]; exact List.mem_cons_self,
+    [.str [49, 50], .int 99], ?_, rfl⟩
   intro v hv
   simp at hv
   rcases hv with rfl | rfl <;> simp [Val.WT, InI64, i64Min, i64Max]
 
 /-! One witness per offending primitive (inputs replayed on the real code by the harness). -/
 
-theorem int_from_str_radix_aborts : outcome "std.int.prim.from_str_radix" [.str [49, 50], .int 99] = .abort := rfl
-theorem int_shl_aborts : outcome "std.int.prim.shl" [.int 1, .int 100] = .abort := rfl
-theorem int_arithmetic_shr_aborts : outcome "std.int.prim.arithmetic_shr" [.int 1, .int 64] = .abort := rfl
-theorem int_logical_shr_aborts : outcome "std.int.prim.logical_shr" [.int 1, .int (-1)] = .abort := rfl
-theorem int_pow_aborts : outcome "std.int.prim.pow" [.int 10, .int 100] = .abort := rfl
-theorem int_abs_aborts : outcome "std.int.prim.abs" [.int i64Min] = .abort := rfl
-theorem int_rem_aborts : outcome "std.int.prim.rem" [.int i64Min, .int (-1)] = .abort := rfl
-theorem int_rem_euclid_aborts : outcome "std.int.prim.rem_euclid" [.int i64Min, .int (-1)] = .abort := rfl
-theorem int_wrapping_div_aborts : outcome "std.int.prim.wrapping_div" [.int 1, .int 0] = .abort := rfl
-theorem int_overflowing_div_aborts : outcome "std.int.prim.overflowing_div" [.int 1, .int 0] = .abort := rfl
-theorem byte_shl_aborts : outcome "std.byte.prim.shl" [.byte 1, .byte 9] = .abort := rfl
-theorem byte_shr_aborts : outcome "std.byte.prim.shr" [.byte 1, .byte 8] = .abort := rfl
-theorem byte_pow_aborts : outcome "std.byte.prim.pow" [.byte 2, .int 8] = .abort := rfl
-theorem byte_wrapping_div_aborts : outcome "std.byte.prim.wrapping_div" [.byte 1, .byte 0] = .abort := rfl
-theorem byte_overflowing_div_aborts : outcome "std.byte.prim.overflowing_div" [.byte 1, .byte 0] = .abort := rfl
-theorem char_is_digit_aborts : outcome "std.char.prim.is_digit" [.char 97, .int 99] = .abort := rfl
-theorem char_to_digit_aborts : outcome "std.char.prim.to_digit" [.char 97, .int 0] = .abort := rfl
-theorem string_slice_aborts : outcome "std.string.prim.slice" [.str [97, 98, 99], .int 2, .int 1] = .abort := rfl
+theorem int_from_str_radix_aborts : sem_int_from_str_radix [.str [49, 50], .int 99] = .abort := rfl
+theorem int_shl_aborts : sem_int_shl [.int 1, .int 100] = .abort := rfl
+theorem int_arithmetic_shr_aborts : sem_int_arithmetic_shr [.int 1, .int 64] = .abort := rfl
+theorem int_logical_shr_aborts : sem_int_logical_shr [.int 1, .int (-1)] = .abort := rfl
+theorem int_pow_aborts : sem_int_pow [.int 10, .int 100] = .abort := rfl
+theorem int_abs_aborts : sem_int_abs [.int i64Min] = .abort := rfl
+theorem int_rem_aborts : sem_int_rem [.int i64Min, .int (-1)] = .abort := rfl
+theorem int_rem_euclid_aborts : sem_int_rem_euclid [.int i64Min, .int (-1)] = .abort := rfl
+theorem int_wrapping_div_aborts : sem_int_wrapping_div [.int 1, .int 0] = .abort := rfl
+theorem int_overflowing_div_aborts : sem_int_overflowing_div [.int 1, .int 0] = .abort := rfl
+theorem byte_shl_aborts : sem_byte_shl [.byte 1, .byte 9] = .abort := rfl
+theorem byte_shr_aborts : sem_byte_shr [.byte 1, .byte 8] = .abort := rfl
+theorem byte_pow_aborts : sem_byte_pow [.byte 2, .int 8] = .abort := rfl
+theorem byte_wrapping_div_aborts : sem_byte_wrapping_div [.byte 1, .byte 0] = .abort := rfl
+theorem byte_overflowing_div_aborts : sem_byte_overflowing_div [.byte 1, .byte 0] = .abort := rfl
+theorem char_is_digit_aborts : sem_char_is_digit [.char 97, .int 99] = .abort := rfl
+theorem char_to_digit_aborts : sem_char_to_digit [.char 97, .int 0] = .abort := rfl
+theorem string_slice_aborts : sem_string_slice [.str [97, 98, 99], .int 2, .int 1] = .abort := rfl
 theorem st_string_slice_aborts :
-    outcome "std.effect.st.string.prim.slice" [.sbuf [97, 98, 99], .int 2, .int 1] = .abort := rfl
-theorem random_gen_int_range_aborts : outcome "std.random.prim.gen_int_range" [.int 1, .int 1] = .abort := rfl
+    sem_effect_st_string_slice [.sbuf [97, 98, 99], .int 2, .int 1] = .abort := rfl
+theorem random_gen_int_range_aborts : sem_random_gen_int_range [.int 1, .int 1] = .abort := rfl
 
 /-! Exact abort conditions (so a *different* violation of the same primitive is distinguishable). -/
 
 theorem int_shl_abort_iff (a n : Int) :
-    outcome "std.int.prim.shl" [.int a, .int n] = .abort ↔ ¬ (0 ≤ n ∧ n < 64) := by
-  have h : outcome "std.int.prim.shl" [.int a, .int n] = ofR .i (i64_shl a n) := rfl
+    sem_int_shl [.int a, .int n] = .abort ↔ ¬ (0 ≤ n ∧ n < 64) := by
+  have h : sem_int_shl [.int a, .int n] = ofR .i (i64_shl a n) := rfl
   rw [h, ofR_abort_iff]; unfold i64_shl; split <;> simp [*]
 
 theorem int_arithmetic_shr_abort_iff (a n : Int) :
-    outcome "std.int.prim.arithmetic_shr" [.int a, .int n] = .abort ↔ ¬ (0 ≤ n ∧ n < 64) := by
-  have h : outcome "std.int.prim.arithmetic_shr" [.int a, .int n] = ofR .i (i64_shr a n) := rfl
+    sem_int_arithmetic_shr [.int a, .int n] = .abort ↔ ¬ (0 ≤ n ∧ n < 64) := by
+  have h : sem_int_arithmetic_shr [.int a, .int n] = ofR .i (i64_shr a n) := rfl
   rw [h, ofR_abort_iff]; unfold i64_shr; split <;> simp [*]
 
-theorem int_abs_abort_iff (a : Int) : outcome "std.int.prim.abs" [.int a] = .abort ↔ a = i64Min := by
-  have h : outcome "std.int.prim.abs" [.int a] = ofR .i (i64_abs a) := rfl
+theorem int_abs_abort_iff (a : Int) : sem_int_abs [.int a] = .abort ↔ a = i64Min := by
+  have h : sem_int_abs [.int a] = ofR .i (i64_abs a) := rfl
   rw [h, ofR_abort_iff]; unfold i64_abs; split <;> simp [*]
 
 /-- `int::rem` guards the divisor against 0 (an error value) but not `MIN % -1`. -/
 theorem int_rem_abort_iff (a b : Int) :
-    outcome "std.int.prim.rem" [.int a, .int b] = .abort ↔ (a = i64Min ∧ b = -1) := by
-  have h : outcome "std.int.prim.rem" [.int a, .int b] = ofRRT .i (int_rem a b) := rfl
+    sem_int_rem [.int a, .int b] = .abort ↔ (a = i64Min ∧ b = -1) := by
+  have h : sem_int_rem [.int a, .int b] = ofRRT .i (int_rem a b) := rfl
   rw [h, ofRRT_abort_iff]; unfold int_rem
   split
   · rename_i hb
@@ -113,8 +115,8 @@ theorem int_rem_abort_iff (a b : Int) :
     subst this; simp
 
 theorem int_rem_euclid_abort_iff (a b : Int) :
-    outcome "std.int.prim.rem_euclid" [.int a, .int b] = .abort ↔ (a = i64Min ∧ b = -1) := by
-  have h : outcome "std.int.prim.rem_euclid" [.int a, .int b] = ofRRT .i (int_rem_euclid a b) := rfl
+    sem_int_rem_euclid [.int a, .int b] = .abort ↔ (a = i64Min ∧ b = -1) := by
+  have h : sem_int_rem_euclid [.int a, .int b] = ofRRT .i (int_rem_euclid a b) := rfl
   rw [h, ofRRT_abort_iff]; unfold int_rem_euclid
   split
   · rename_i hb
@@ -126,49 +128,49 @@ theorem int_rem_euclid_abort_iff (a b : Int) :
     subst this; simp
 
 theorem int_wrapping_div_abort_iff (a b : Int) :
-    outcome "std.int.prim.wrapping_div" [.int a, .int b] = .abort ↔ b = 0 := by
-  have h : outcome "std.int.prim.wrapping_div" [.int a, .int b] = ofR .i (i64_wrapping_div a b) := rfl
+    sem_int_wrapping_div [.int a, .int b] = .abort ↔ b = 0 := by
+  have h : sem_int_wrapping_div [.int a, .int b] = ofR .i (i64_wrapping_div a b) := rfl
   rw [h, ofR_abort_iff]; unfold i64_wrapping_div; split <;> simp [*]
 
 theorem int_overflowing_div_abort_iff (a b : Int) :
-    outcome "std.int.prim.overflowing_div" [.int a, .int b] = .abort ↔ b = 0 := by
-  have h : outcome "std.int.prim.overflowing_div" [.int a, .int b]
+    sem_int_overflowing_div [.int a, .int b] = .abort ↔ b = 0 := by
+  have h : sem_int_overflowing_div [.int a, .int b]
       = ofR Res.pairIB (i64_overflowing_div a b) := rfl
   rw [h, ofR_abort_iff]; unfold i64_overflowing_div; split <;> simp [*]
 
 theorem int_from_str_radix_abort_iff (s : Bytes) (r : Int) :
-    outcome "std.int.prim.from_str_radix" [.str s, .int r] = .abort ↔ ¬ (2 ≤ toU32 r ∧ toU32 r ≤ 36) := by
-  have h : outcome "std.int.prim.from_str_radix" [.str s, .int r]
+    sem_int_from_str_radix [.str s, .int r] = .abort ↔ ¬ (2 ≤ toU32 r ∧ toU32 r ≤ 36) := by
+  have h : sem_int_from_str_radix [.str s, .int r]
       = ofR (Res.result .i) (i64_from_str_radix s (toU32 r)) := rfl
   rw [h, ofR_abort_iff]; unfold i64_from_str_radix; split <;> simp [*]
 
 theorem byte_shl_abort_iff (a n : Int) :
-    outcome "std.byte.prim.shl" [.byte a, .byte n] = .abort ↔ ¬ n < 8 := by
-  have h : outcome "std.byte.prim.shl" [.byte a, .byte n] = ofR .b (u8_shl a n) := rfl
+    sem_byte_shl [.byte a, .byte n] = .abort ↔ ¬ n < 8 := by
+  have h : sem_byte_shl [.byte a, .byte n] = ofR .b (u8_shl a n) := rfl
   rw [h, ofR_abort_iff]; unfold u8_shl; split <;> simp [*]
 
 theorem byte_wrapping_div_abort_iff (a b : Int) :
-    outcome "std.byte.prim.wrapping_div" [.byte a, .byte b] = .abort ↔ b = 0 := by
-  have h : outcome "std.byte.prim.wrapping_div" [.byte a, .byte b] = ofR .b (u8_wrapping_div a b) := rfl
+    sem_byte_wrapping_div [.byte a, .byte b] = .abort ↔ b = 0 := by
+  have h : sem_byte_wrapping_div [.byte a, .byte b] = ofR .b (u8_wrapping_div a b) := rfl
   rw [h, ofR_abort_iff]; unfold u8_wrapping_div; split <;> simp [*]
 
 theorem char_to_digit_abort_iff (c r : Int) :
-    outcome "std.char.prim.to_digit" [.char c, .int r] = .abort ↔ ¬ (2 ≤ toU32 r ∧ toU32 r ≤ 36) := by
-  have h : outcome "std.char.prim.to_digit" [.char c, .int r]
+    sem_char_to_digit [.char c, .int r] = .abort ↔ ¬ (2 ≤ toU32 r ∧ toU32 r ≤ 36) := by
+  have h : sem_char_to_digit [.char c, .int r]
       = ofR (Res.opt .i) (char_to_digit c (toU32 r)) := rfl
   rw [h, ofR_abort_iff]; unfold char_to_digit; split <;> simp [*]
 
 /-- `string::slice` checks both indices for char boundaries (hence ≤ len) but never `start ≤ end`. -/
 theorem string_slice_abort_iff (s : Bytes) (a b : Int) :
-    outcome "std.string.prim.slice" [.str s, .int a, .int b] = .abort ↔
+    sem_string_slice [.str s, .int a, .int b] = .abort ↔
       (isCharBoundary s (toU64 a).toNat = true ∧ isCharBoundary s (toU64 b).toNat = true ∧
         (toU64 b).toNat < (toU64 a).toNat) := by
-  have h : outcome "std.string.prim.slice" [.str s, .int a, .int b] = ofRRT .s (string_slice s a b) := rfl
+  have h : sem_string_slice [.str s, .int a, .int b] = ofRRT .s (string_slice s a b) := rfl
   rw [h, ofRRT_abort_iff]; exact string_slice_panic_iff s a b
 
 theorem random_gen_int_range_abort_iff (lo hi : Int) :
-    outcome "std.random.prim.gen_int_range" [.int lo, .int hi] = .abort ↔ ¬ lo < hi := by
-  have h : outcome "std.random.prim.gen_int_range" [.int lo, .int hi]
+    sem_random_gen_int_range [.int lo, .int hi] = .abort ↔ ¬ lo < hi := by
+  have h : sem_random_gen_int_range [.int lo, .int hi]
       = ofR (fun _ => Res.opaque) (random_gen_int_range lo hi) := rfl
   rw [h, ofR_abort_iff]; unfold random_gen_int_range; split <;> simp [*]
 
@@ -227,15 +229,14 @@ theorem history_fixed_clean (steps : List Step) (s : Stack) : runHistory resetFi
 
 /-! ## Non-vacuity -/
 
-example : outcome "std.int.prim.wrapping_add" [.int i64Max, .int 1] = .ok (.i i64Min) := rfl
-example : outcome "std.string.prim.slice" [.str [97, 195, 169], .int 1, .int 3] = .ok (.s [195, 169]) := rfl
-example : outcome "std.string.prim.slice" [.str [97, 195, 169], .int 1, .int 2] = .err := rfl
-example : outcome "std.array.prim.index" [.arrI [1, 2], .int 5] = .err := rfl
-example : outcome "std.int.prim.rem" [.int 7, .int 0] = .err := rfl
-example : "std.int.prim.wrapping_add" ∉ offending := by decide
-example : (⟨"std.array.prim", "slice", "std.array.prim.slice", 3, "std::array::prim::slice", "primitive"⟩ : PrimEntry)
-    ∈ primTable := by decide +kernel
-example : "std.array.prim.slice" ∉ offending := by decide
+example : sem_string_slice [.str [97, 195, 169], .int 1, .int 3] = .ok (.s [195, 169]) := rfl
+example : sem_string_slice [.str [97, 195, 169], .int 1, .int 2] = .err := rfl
+example : sem_int_rem [.int 7, .int 0] = .err := rfl
+example : sem_int_shl [.int 1, .int 63] = .ok (.i i64Min) := rfl
+-- a guarded primitive: the first entry of `guardedSems` (one string comparison per table entry passed)
+example : outcome "std.int.prim.checked_rem" [.int i64Min, .int (-1)] = .ok (.d 0 []) := rfl
+example : ofRRT Res.i (array_index [1, 2] 5) = .err := rfl
+example : ofRRT intsRes (array_slice [1, 2, 3] 2 1) = .err := rfl
 example : isCharBoundary [97, 98, 99] 2 = true ∧ isCharBoundary [97, 98, 99] 1 = true ∧ 1 < 2 := by decide
 example : runHistory resetStack [.fail 3 10, .ok 2 5, .fail 1 4] Stack.base = ⟨[0], 14⟩ := by decide
 example : pushed [.push 3, .enter 1] = 3 := rfl
